@@ -1,6 +1,7 @@
 package main
 
 import (
+	"encoding/json"
 	"fmt"
 	"sync"
 
@@ -63,6 +64,13 @@ func sysInvalid(rng *proto.Rng) []sysObj {
 	default: // missing kind
 		return []sysObj{{ID: jid{"ns1", "nokind", "", ""}}}
 	}
+}
+
+func boolInt(b bool) int {
+	if b {
+		return 1
+	}
+	return 0
 }
 
 func addObj(objs []sysObj, o sysObj) []sysObj {
@@ -194,6 +202,14 @@ func genSysHistory(rng *proto.Rng) sysIn {
 			run.WatchErr = fmt.Sprintf("wait:%d:%d", rng.Intn(3), rng.Intn(2))
 		case 4:
 			run.Cancel = fmt.Sprintf("wait:%d:end", rng.Intn(3))
+		case 5:
+			// the watcher fails while a mutating request is in flight (an uninterruptible phase)
+			run.WatchErr = fmt.Sprintf("mut:%d", rng.Intn(6))
+		case 6:
+			// both, around the same phase: the cancellation first (same or earlier request) or the watcher's error first
+			k := rng.Intn(5)
+			run.Cancel = fmt.Sprintf("mut:%d", k)
+			run.WatchErr = fmt.Sprintf("mut:%d", k+rng.Intn(3)-1+boolInt(k == 0))
 		}
 		if rng.Chance(1, 3) {
 			for _, o := range sysCatalogue {
@@ -261,6 +277,12 @@ func sysHandWritten() []sysIn {
 			{Kind: "destroy", Del: map[string]string{idKey(soD.ID): "finalizer"}, Opts: sysOpts{Timeout: true}},
 			{Kind: "destroy", Del: map[string]string{idKey(soD.ID): "finalizer"}, Opts: sysOpts{Timeout: true}},
 			{Kind: "apply", Objs: []sysObj{soA}, Del: map[string]string{idKey(soD.ID): "finalizer-gone"}, Opts: sysOpts{Timeout: true}}}},
+		// cancellation and a fatal watcher error around the same uninterruptible phase, in both orders: the run ends with the
+		// context error
+		{Pre: pre, Runs: []sysRun{{Kind: "apply", Objs: []sysObj{soA, soB, soC}, Cancel: "mut:1", WatchErr: "mut:1"}}},
+		{Pre: pre, Runs: []sysRun{{Kind: "apply", Objs: []sysObj{soA, soD}, Cancel: "mut:1", WatchErr: "mut:2"}}},
+		{Pre: pre, Runs: []sysRun{{Kind: "apply", Objs: []sysObj{soA, soD}, Cancel: "mut:2", WatchErr: "mut:1"}}},
+		{Pre: pre, Runs: []sysRun{{Kind: "apply", Objs: []sysObj{soA, soD}, WatchErr: "mut:1"}, {Kind: "destroy", Cancel: "mut:0", WatchErr: "mut:1"}}},
 		// boundary: empty apply sets (nothing tracked yet; everything tracked pruned), destroy without an inventory
 		{Pre: pre, Runs: []sysRun{{Kind: "apply", Objs: []sysObj{}}, {Kind: "apply", Objs: []sysObj{soA}}, {Kind: "apply", Objs: []sysObj{}}, {Kind: "destroy"}}},
 		{Pre: pre, Runs: []sysRun{{Kind: "destroy"}}},
@@ -295,4 +317,64 @@ func genSysNamed(name string, out *proto.Out, rng *proto.Rng, tier string) {
 	for i := range cases {
 		out.Emit(name, cases[i], res[i])
 	}
+}
+
+// domain sync-race: the last run of each history is cancelled at the moment the watcher's sync event becomes ready, while the
+// runner is kept busy forwarding a status event (Cancel "at-sync": needs EmitStatus and one live object in Initial).  Which of
+// the two the runner's select takes is Go's choice, so every history is played several times; the driver accepts either
+// behaviour of the model and checks what must hold in both (see Drv/Sys.lean handleSyncRace).
+func syncRaceHistories() []sysIn {
+	pre := []sysObj{soNs1, soNs2}
+	at := func(kind string, objs []sysObj, init jid, opts sysOpts) sysRun {
+		opts.EmitStatus = true
+		return sysRun{Kind: kind, Objs: objs, Opts: opts, Initial: []jid{init}, Cancel: "at-sync"}
+	}
+	preA := sysObj{ID: soA.ID, Rev: 7}
+	return []sysIn{
+		{Pre: append([]sysObj{preA}, pre...), Runs: []sysRun{at("apply", []sysObj{soA}, soA.ID, sysOpts{Policy: 2})}},
+		{Pre: append([]sysObj{preA}, pre...), Runs: []sysRun{at("apply", []sysObj{}, soA.ID, sysOpts{})}},
+		{Pre: pre, Runs: []sysRun{{Kind: "apply", Objs: []sysObj{soA, soB}}, at("apply", []sysObj{soA}, soA.ID, sysOpts{})}},
+		{Pre: pre, Runs: []sysRun{{Kind: "apply", Objs: []sysObj{soA, soD}}, at("destroy", nil, soA.ID, sysOpts{})}},
+		{Pre: pre, Runs: []sysRun{{Kind: "apply", Objs: []sysObj{soA}}, at("apply", []sysObj{soA}, soA.ID, sysOpts{StatusAll: true})}},
+		{Pre: pre, Runs: []sysRun{{Kind: "apply", Objs: []sysObj{soA, soK}}, at("apply", []sysObj{soA, soNs1}, soA.ID, sysOpts{NoPrune: true})}},
+	}
+}
+
+func genSyncRace(out *proto.Out, _ *proto.Rng, tier string) {
+	reps := 6
+	if tier == "thorough" {
+		reps = 40
+	}
+	var cases []sysIn
+	for _, h := range syncRaceHistories() {
+		for k := 0; k < reps; k++ {
+			cases = append(cases, h)
+		}
+	}
+	res := make([]map[string]any, len(cases))
+	var wg sync.WaitGroup
+	sem := make(chan struct{}, 16)
+	for i := range cases {
+		wg.Add(1)
+		sem <- struct{}{}
+		go func(i int) {
+			defer wg.Done()
+			defer func() { <-sem }()
+			res[i] = runSys(cases[i])
+		}(i)
+	}
+	wg.Wait()
+	for i := range cases {
+		out.Emit("sync-race", cases[i], res[i])
+	}
+}
+
+func init() {
+	register("sync-race", domain{gen: genSyncRace, run: func(raw json.RawMessage) (any, error) {
+		var in sysIn
+		if err := json.Unmarshal(raw, &in); err != nil {
+			return nil, err
+		}
+		return runSys(in), nil
+	}})
 }
